@@ -95,7 +95,8 @@ def type_range(signed, bits):
     return (-(2 ** (bits - 1)), 2 ** (bits - 1) - 1) if signed else (0, 2 ** bits - 1)
 
 
-def intrange(repo):
+def intrange(repo, parts=None):
+    """parts: subset of {'backend', 'gate', 'leaf'} (default all): which of the three families of range tests count for the calling property."""
     res = RuleResult("R-INTRANGE")
     # (1) header_generator: functions returning "::std::{u}int{}_t".format(size) under range guards
     hg = repo.mod(HG)
@@ -249,6 +250,13 @@ def intrange(repo):
         raise AnalysisError(f"R-INTRANGE anchors shrank: {res.detail}")
     res.samples = ["int32_t <-> [-2**31, 2**31-1]", "_bounds_can_fit_64_bit_unsigned <-> [0, 2**64-1]", "Bcd:n <-> [0, 10**(n//4)*2**(n%4)-1]"]
     res.analysed = [HG, CONS, EB]
+    if parts is not None:
+        files = {"backend": HG, "gate": CONS, "leaf": EB}
+        keep = {files[p] for p in parts}
+        res.findings = [f for f in res.findings if f.file in keep]
+        res.instances = sum(n for p, n in (("backend", n1), ("gate", n2), ("leaf", n3)) if p in parts)
+        res.analysed = sorted(keep)
+        res.detail["parts"] = sorted(parts)
     return res
 
 
